@@ -19,8 +19,8 @@ def main(tier):
     ev.add_tlc('design: Lifecycle protocol, all legal histories to depth %d' % (4 if quick else 6), r)
     if r.violated:
         vd.violation('design:' + r.violated[0], 'Lifecycle.tla violates %s' % r.violated[0], {'tail': r.out[-4000:]})
-    n = 250 if quick else 5000
-    hists, rg = LC.gen_histories(d, n, 12 if quick else 20, V.seed())
+    n = 800 if quick else 5000
+    hists, rg = LC.gen_histories(d, n, 16 if quick else 20, V.seed())
     ev.add_tlc('history generation (simulation of Lifecycle)', rg)
     rnd = random.Random(V.seed())
     # three quarters of the histories that would destroy the router with actions still queued (the known finding F10 ends those
